@@ -32,6 +32,7 @@ registry! {
     "C16" => c16,
     "C17" => c17,
     "C19" => c19,
+    "C21" => c21,
     "C23" => c23,
     "C24" => c24,
     "C25" => c25,
